@@ -994,6 +994,10 @@ func (f *Frame) enterLoop(l *loop, entryReach string, entrySt *State, edges []in
 			break
 		}
 		f.vals[phi] = f.havocOf(phi.Type(), phi.Name()+"_"+sanitize(phi.Comment), st)
+		if phi.Comment == "rangeindex" {
+			// go/ssa's range-over-slice index starts at -1 and is only incremented.
+			f.ctx.Fact(fmt.Sprintf("(>= %s (- 1))", f.vals[phi]))
+		}
 	}
 	// automatic frame invariant relative to function entry: objects that
 	// existed at entry and are not modified objects keep their contents.
